@@ -379,6 +379,7 @@ def main(chk):
         'each confirmed to be real parser output, and whose non-Query statements have a symbolic kind over all 92 Statement variants; '
         'previous role and primary-reads settings symbolic. Oracle: the property text. Counterexamples are rendered to SQL, parsed by the real '
         'parser and run through the real parse+infer natively. The role filter (both PartialEq impls) is decided over its full domain.')
+    chk.explanation += (' (O5-get-shard) ConnectionPool::get with primary_reads_enabled symbolic: a request for a replica is never answered with a primary.')
     chk.assumptions += [
         'SQL -> AST is sqlparser (trusted); every abstract shape used is validated against the real parser on this run',
         'activity-based routing is off; automatic sharding is on in four pair obligations, with the shard inference itself (infer_shard / infer_shard_on_write: which key a statement names) replaced by solver-chosen outcomes',
@@ -412,6 +413,10 @@ def main(chk):
     # that choose a role and then run several transactions (simple and extended), on a pool of a primary and a replica -- also when the pool
     # itself has the parser on and another default_role
     from checks import hobl
+    # the last step of every routing decision: the pool hands out a server of the role it was asked for (a replica request is a deliberate choice --
+    # default_role, SET SERVER ROLE, a read with primary reads off -- whatever primary_reads_enabled says at pool level)
+    import checks.c07 as c07mod
+    c07mod.o5_get_shard(chk, chk.program('on'), props=('C05',), only=('get-wrong-role',))
     hobl.handle_obligations(chk, chk.program('on'), {'C05'}, ['commands'])
 
 
